@@ -102,4 +102,6 @@ def run(ctx):
     rep.floor('R06', 'key occurrences established', n, ns * (1 + 8 + 8 + 8))
     from rules import profile
     profile.check(ctx, rep, 'R06.P', ['sreg_start', 'creg_finish', 'slog_start', 'clog_finish'])
+    from rules import lclone
+    lclone.check(ctx, rep, 'R06.C')
     return rep
